@@ -141,9 +141,9 @@ def cheap(seeds, cap, workdir):
     return [s for s, n in zip(uniq, steps) if 0 < n <= cap]
 
 
-def peg_world(toks, maxtok, maxparen, seeds, budgets=False, expect=()):
+def peg_world(toks, maxtok, maxparen, seeds, budgets=False, expect=(), checked=False):
     g = json.load(open(os.path.join(vlib.SPEC, "grammar_frozen.json")))
-    return {"grammar": g, "tokens": toks, "maxtok": maxtok, "maxparen": maxparen, "seeds": seeds, "budgets": budgets, "expect": list(expect)}
+    return {"grammar": g, "tokens": toks, "maxtok": maxtok, "maxparen": maxparen, "seeds": seeds, "budgets": budgets, "expect": list(expect), "checked": checked}
 
 
 def symstr(s):
